@@ -20,7 +20,7 @@ LEVEL = 'model_checking'
 SUMMARY_RE = re.compile(r'^=== (.*) in [\d.]+ seconds ===$', re.M)
 
 
-def run_native(path, command, verbose, style='auto', options=None, use_main=False):
+def run_native(path, command, verbose, style='auto', options=None, use_main=False, dash_m=False):
     import xdoctest
     from xdoctest.__main__ import main as xmain
     buf = io.StringIO()
@@ -28,7 +28,8 @@ def run_native(path, command, verbose, style='auto', options=None, use_main=Fals
     with contextlib.redirect_stdout(buf), contextlib.redirect_stderr(buf), harness.fresh_process_warning_filters():
         try:
             if use_main:
-                argv = ['xdoctest', path, command, '--style=' + style, '--verbose=%d' % verbose, '--nocolor']
+                # the module may be given positionally or with -m / --modname; the command stays positional
+                argv = (['xdoctest', '-m', path, command] if dash_m else ['xdoctest', path, command]) + ['--style=' + style, '--verbose=%d' % verbose, '--nocolor']
                 if options:
                     argv.append('--options=' + options)
                 res['rc'] = xmain(argv)
@@ -107,10 +108,11 @@ class TallySpec(Spec):
                 exp_trace = ''.join(n + ';' for n, k in zip(names, kinds) if outcomes.traces(k))
                 # ---- all ----
                 for verbose, use_main, options in ((0, False, None), (0, True, None), (1, False, None), (1, True, None),
-                                                   (3, False, None), (3, True, None), (1, True, '+ELLIPSIS')):
+                                                   (3, False, None), (3, True, None), (1, True, '+ELLIPSIS'), (1, 'dash-m', None)):
                     if True:
-                        # the last run passes an option that restates a default: nothing may change
-                        r = run_native(path, 'all', verbose, use_main=use_main, options=options)
+                        # the last but one run passes an option that restates a default: nothing may change; the last one
+                        # names the module with -m
+                        r = run_native(path, 'all', verbose, use_main=bool(use_main), options=options, dash_m=use_main == 'dash-m')
                         n_runs += 1
                         harness.forget_modules(modname)
                         tr = trace()
@@ -149,8 +151,8 @@ class TallySpec(Spec):
                             if got_failed != exp_failed:
                                 atoms.append({'sig': 'all:failed-list', 'msg': 'failed=%r, expected %r' % (got_failed, exp_failed)})
                 # ---- list ----
-                for verbose in (1, 3):
-                    r = run_native(path, 'list', verbose)
+                for verbose in (1, 3, 'dash-m'):
+                    r = run_native(path, 'list', 1, use_main=True, dash_m=True) if verbose == 'dash-m' else run_native(path, 'list', verbose)
                     n_runs += 1
                     harness.forget_modules(modname)
                     tr = trace()
@@ -164,8 +166,8 @@ class TallySpec(Spec):
                         atoms.append({'sig': 'list:names', 'msg': 'listed %r, collected doctests are %r' % (listed, names)})
                 # ---- a single name ----
                 for n, k in zip(names, kinds):
-                    for use_main in (False, True):
-                        r = run_native(path, n + ':0', 1, use_main=use_main)
+                    for use_main in (False, True, 'dash-m'):
+                        r = run_native(path, n + ':0', 1, use_main=bool(use_main), dash_m=use_main == 'dash-m')
                         n_runs += 1
                         harness.forget_modules(modname)
                         tr = trace()
